@@ -51,21 +51,14 @@ func (f *FS) Root() string { return f.base }
 func (f *FS) Join(elem ...string) string { return path.Join(elem...) }
 
 func (f *FS) Chroot(p string) (billy.Filesystem, error) {
+	// like osfs.BoundOS: nothing is created; an existing non-directory is refused
 	abs := f.abs(p)
-	// like osfs: create the directory if missing
 	f.d.mu.Lock()
 	r := f.d.walk(abs, true)
-	if r.err == nil && r.node == nil {
-		_, err := f.d.mkdirAll(abs, 0o755, -1)
-		if err != nil {
-			f.d.mu.Unlock()
-			return nil, err
-		}
-	} else if r.err == nil && r.node.kind != kDir {
-		f.d.mu.Unlock()
-		return nil, fmt.Errorf("cannot chroot: %q is not a dir", p)
-	}
 	f.d.mu.Unlock()
+	if r.err == nil && r.node != nil && r.node.kind != kDir {
+		return nil, &os.PathError{Op: "open", Path: p, Err: syscall.ENOTDIR}
+	}
 	c := *f
 	c.base = abs
 	return &c, nil
@@ -209,7 +202,9 @@ func (f *FS) checkBound(resolved string) error {
 }
 
 // mkdirAll creates abs and parents. limit>=0 creates at most limit new
-// components (torn mkdir). d.mu held.
+// components (torn mkdir). A component that exists as a dangling symlink or
+// (final component) as a non-directory yields EEXIST, like os.Root.MkdirAll.
+// d.mu held.
 func (d *Disk) mkdirAll(abs string, perm fs.FileMode, limit int) (int, error) {
 	parts := splitPath(abs)
 	created := 0
@@ -221,9 +216,20 @@ func (d *Disk) mkdirAll(abs string, perm fs.FileMode, limit int) (int, error) {
 		}
 		if r.node != nil {
 			if r.node.kind != kDir {
+				if i == len(parts) {
+					return created, &os.PathError{Op: "mkdir", Path: sub, Err: syscall.EEXIST}
+				}
 				return created, &os.PathError{Op: "mkdir", Path: sub, Err: syscall.ENOTDIR}
 			}
 			continue
+		}
+		// missing after following links: a dangling link as the FINAL component
+		// is EEXIST; as an intermediate component os.Root.MkdirAll follows it
+		// and creates the target.
+		if i == len(parts) {
+			if l := d.walk(sub, false); l.err == nil && l.node != nil {
+				return created, &os.PathError{Op: "mkdir", Path: sub, Err: syscall.EEXIST}
+			}
 		}
 		if limit >= 0 && created >= limit {
 			return created, nil
@@ -235,6 +241,17 @@ func (d *Disk) mkdirAll(abs string, perm fs.FileMode, limit int) (int, error) {
 		created++
 	}
 	return created, nil
+}
+
+// mkParents creates the parent directories of abs the way osfs.createDir
+// does: an EEXIST from MkdirAll is ignored (the operation that follows then
+// fails by itself).
+func (d *Disk) mkParents(abs string) error {
+	_, err := d.mkdirAll(path.Dir(abs), 0o755, -1)
+	if err != nil && errors.Is(err, os.ErrExist) {
+		return nil
+	}
+	return err
 }
 
 func pathErr(op, p string, errno syscall.Errno) error {
@@ -266,7 +283,7 @@ func (f *FS) OpenFile(filename string, flag int, perm fs.FileMode) (billy.File, 
 	if r0.err == nil {
 		res = r0.resolved
 	}
-	willMutate := r0.err == nil && ((r0.node == nil && create) || (r0.node != nil && trunc && flag&(os.O_WRONLY|os.O_RDWR) != 0 && len(r0.node.data) > 0)) || (r0.err != nil && create)
+	willMutate := r0.err == nil && ((r0.node == nil && create) || (r0.node != nil && trunc && len(r0.node.data) > 0)) || (r0.err != nil && create)
 	d.mu.Unlock()
 
 	v := d.begin(f.actor, class, res, "", flagString(flag), willMutate)
@@ -281,7 +298,7 @@ func (f *FS) OpenFile(filename string, flag int, perm fs.FileMode) (billy.File, 
 	var err error
 	if create {
 		// osfs creates missing parent directories
-		if _, err = d.mkdirAll(path.Dir(abs), 0o755, -1); err != nil {
+		if err = d.mkParents(abs); err != nil {
 			d.end(v, err)
 			return nil, err
 		}
@@ -319,7 +336,7 @@ func (f *FS) OpenFile(filename string, flag int, perm fs.FileMode) (billy.File, 
 			return nil, err
 		}
 		if node.kind == kDir {
-			if flag&(os.O_WRONLY|os.O_RDWR) != 0 {
+			if flag&(os.O_WRONLY|os.O_RDWR) != 0 || create || trunc {
 				err = pathErr("open", filename, syscall.EISDIR)
 				d.end(v, err)
 				return nil, err
@@ -330,18 +347,29 @@ func (f *FS) OpenFile(filename string, flag int, perm fs.FileMode) (billy.File, 
 			d.end(v, err)
 			return nil, err
 		}
-		if trunc && flag&(os.O_WRONLY|os.O_RDWR) != 0 && node.kind == kFile {
+		if trunc && node.kind == kFile {
 			node.data = nil
 			node.mtime = d.Now()
 		}
 	}
-	h := &handle{fs: f, node: node, name: filename, abs: r.resolved, flag: flag}
+	h := &handle{fs: f, node: node, name: f.displayName(filename, abs), abs: r.resolved, flag: flag}
 	d.openHandles[h] = struct{}{}
 	d.end(v, nil)
 	if v.crash {
 		return nil, ErrCrashed
 	}
 	return h, nil
+}
+
+// displayName mirrors osfs: the cleaned path relative to the view root.
+func (f *FS) displayName(given, abs string) string {
+	if f.base == "/" {
+		return path.Clean(given)
+	}
+	if abs == f.base {
+		return "."
+	}
+	return strings.TrimPrefix(abs, f.base+"/")
 }
 
 func flagString(flag int) string {
@@ -469,7 +497,7 @@ func (f *FS) Rename(from, to string) error {
 		d.end(v, billy.ErrBaseDirCannotBeRenamed)
 		return billy.ErrBaseDirCannotBeRenamed
 	}
-	if _, err := d.mkdirAll(path.Dir(at), 0o755, -1); err != nil {
+	if err := d.mkParents(at); err != nil {
 		d.end(v, err)
 		return err
 	}
@@ -676,7 +704,7 @@ func (f *FS) Symlink(target, link string) error {
 		d.end(v, ErrCrashed)
 		return ErrCrashed
 	}
-	if _, err := d.mkdirAll(path.Dir(abs), 0o755, -1); err != nil {
+	if err := d.mkParents(abs); err != nil {
 		d.end(v, err)
 		return err
 	}
@@ -834,6 +862,10 @@ func (h *handle) Read(b []byte) (int, error) {
 	if h.closed {
 		return 0, h.closedErr(v, "read")
 	}
+	if len(b) == 0 {
+		d.end(v, nil)
+		return 0, nil
+	}
 	if !h.canRead() || h.node.kind != kFile {
 		err := pathErr("read", h.name, syscall.EBADF)
 		if h.node.kind == kDir {
@@ -841,10 +873,6 @@ func (h *handle) Read(b []byte) (int, error) {
 		}
 		d.end(v, err)
 		return 0, err
-	}
-	if len(b) == 0 {
-		d.end(v, nil)
-		return 0, nil
 	}
 	if h.pos >= int64(len(h.node.data)) {
 		d.end(v, nil)
@@ -862,6 +890,15 @@ func (h *handle) ReadAt(b []byte, off int64) (int, error) {
 	if v.err != nil {
 		d.mu.Unlock()
 		return 0, v.err
+	}
+	if off < 0 {
+		err := pathErr("readat", h.name, syscall.EINVAL)
+		d.end(v, err)
+		return 0, err
+	}
+	if len(b) == 0 {
+		d.end(v, nil)
+		return 0, nil
 	}
 	if h.closed {
 		return 0, h.closedErr(v, "readat")
@@ -955,6 +992,15 @@ func (h *handle) WriteAt(p []byte, off int64) (int, error) {
 		d.mu.Unlock()
 		return 0, v.err
 	}
+	if off < 0 {
+		err := pathErr("writeat", h.name, syscall.EINVAL)
+		d.end(v, err)
+		return 0, err
+	}
+	if len(p) == 0 {
+		d.end(v, nil)
+		return 0, nil
+	}
 	if h.closed {
 		return 0, h.closedErr(v, "writeat")
 	}
@@ -1017,7 +1063,7 @@ func (h *handle) Truncate(size int64) error {
 		d.end(v, ErrCrashed)
 		return ErrCrashed
 	}
-	if !h.canWrite() {
+	if !h.canWrite() || size < 0 {
 		err := pathErr("truncate", h.name, syscall.EINVAL)
 		d.end(v, err)
 		return err
